@@ -169,6 +169,12 @@ pub fn scan_unit(ctx: &Ctx, rng: &mut Rng, o: &mut Out) {
           .filter(|n| matched_set.contains(&ids.of(n)) && !n.ancestors().any(|a| matched_set.contains(&ids.of(&a))))
           .map(|n| ids.of(n))
           .collect();
+        // `replace_all` (the library's replace-every-match call) edits exactly the outermost matches
+        let replaced: Vec<(usize, usize)> = root.replace_all(&c.matcher, "R").iter().map(|e| (e.position, e.position + e.deleted_length)).collect();
+        let outer_ranges: Vec<(usize, usize)> = all.iter().filter(|n| outermost.contains(&ids.of(n))).map(|n| (n.range().start, n.range().end)).collect();
+        if c.fix.is_none() && replaced != outer_ranges {
+          o.oracle("visit-outermost", false, json!({"fp": "replace_all does not edit exactly the outermost matches", "lang": lang_name(src.lang), "src": src.text, "rule": c.id, "replaced": replaced, "outermost": outer_ranges}));
+        }
         if visited != outermost {
           o.oracle("visit-outermost", false, json!({"fp": "non-reentrant visit is not the outermost matches", "lang": lang_name(src.lang), "src": src.text, "rule": c.id, "visited": visited, "outermost": outermost}));
         }
